@@ -186,6 +186,20 @@ Definition hex_lower (r : Z) : Z := if (65 <=? r) && (r <=? 70) then r + 32 else
 Definition hex_val (r : Z) : Z :=
   if is_digit r then r - 48 else hex_lower r - 87.
 
+(* decimal spelling of a non-negative integer (big.Int.String) *)
+Fixpoint dec_digits_go (fuel : nat) (c : Z) (acc : list Z) : list Z :=
+  match fuel with
+  | O => acc
+  | S f => if c <? 10 then (48 + c) :: acc else dec_digits_go f (c / 10) ((48 + c mod 10) :: acc)
+  end.
+
+Definition dec_digits (c : Z) : list Z :=
+  if c <=? 0 then [48] else dec_digits_go (S (Z.to_nat (Z.log2 c))) c [].
+
+(* the integer denoted by a list of (lower-case) hexadecimal digit characters, and its decimal spelling *)
+Definition hex_value (hv : list Z) : Z := fold_left (fun acc d => acc * 16 + hex_val d) hv 0.
+Definition hex_value_digits (hv : list Z) : list Z := dec_digits (hex_value hv).
+
 (* scanHexDigits(count, scanAsManyAsPossible = true, canHaveSeparators = false) *)
 Fixpoint hex_run (ss : list step) (pos : Z) (acc : list Z) : list Z * list step * Z :=
   match ss with
@@ -327,8 +341,8 @@ Definition scan_one (ss : list step) (pos : Z) : token * list step :=
         let p2 := p1 + steps_len (firstn 2 ss1) in
         let '(hv, rest, e) := hex_run (skipn 2 ss1) p2 [] in
         match hv with
-        | [] => (mkTok KNumber [48; 120; 48] pos p1 e nl [(e, 0, C_Hexadecimal_digit_expected)], rest)
-        | _ => (mkTok KNumber (48 :: 120 :: hv) pos p1 e nl [], rest)
+        | [] => (mkTok KNumber [48] pos p1 e nl [(e, 0, C_Hexadecimal_digit_expected)], rest)
+        | _ => (mkTok KNumber (hex_value_digits hv) pos p1 e nl [], rest)
         end
       else number
     else if is_digit r then number
